@@ -75,6 +75,129 @@ CHECKS = {
     ),
 }
 
+KERNEL_NOTE = ("Trusted: Lean kernel; axioms propext/Classical.choice/Quot.sound; harness + compiled Float driver (Lean's Float + - * / sqrt and "
+               "comparisons are IEEE binary64 like NumPy's; exact hex I/O); NumPy/SciPy linear algebra (dot order, cholesky, triangular solves) "
+               "modelled as exact solves in the theorems and compared numerically, not bit for bit.")
+
+CHECKS.update({
+    "C01": dict(
+        text="PARTIAL by proof, completed by search. Theorems (ordered field, Props/C01.lean): projgr_zero_iff_kkt (the stop-test quantity vanishes "
+             "exactly at the first-order points), d0_zero_iff_kkt and nonstationary_moves (the generalized-Cauchy start direction of the model of "
+             "cauchy.py is non-zero at every non-stationary point: variables resting on a bound with the gradient outward do not block the others), "
+             "moving_breakpoint_pos, d0_descent_term; with C04 report_truthful and C05 result_coherent the PGTOL message is truthful. That the "
+             "iteration reaches such a point on every generated convex problem (global convergence through SciPy's line search in floating point) is "
+             "not a theorem: it is decided on real runs (600 quick / 8000 thorough convex problems incl. starts constructed on bounds with the gradient "
+             "inward/outward), each replayed bit for bit through the Lean driver model, projected gradient recomputed from the harness's closures.",
+        note=SHELL_NOTE + " Resolution level of the objective is measured (1-ulp perturbations), see evidence assumptions.",
+        technique="Lean 4 proof (KKT characterisation of the stop test and of the Cauchy direction, ordered field) + bit-exact trace replay + convex-run search with recomputed projected gradient",
+        design_ref="DESIGN.md §4 C01"),
+    "C06": dict(
+        text="Theorems restore_pairs (history rebuilt from a checkpoint has exactly the stored pairs as consecutive differences, any additive group), "
+             "restore_keeps_most_recent (with memory maxcor' the most recent min(m, maxcor') pairs are kept, in order, matrices rebuilt from them), "
+             "restart_same_memory; bit-equality is not a theorem (the reconstruction rounds): restarts at every iteration k of real runs, with equal "
+             "and reduced maxcor, are replayed through the model bit for bit and the next iterate / pairs compared with the uninterrupted run. Known "
+             "finding K4 (restart from a result whose x is not the end of its stored history) reported as KNOWN-FINDING.",
+        note=SHELL_NOTE, technique="Lean 4 proof (list induction over an additive group) + bit-exact replay of restarts + split-run differential against the uninterrupted run",
+        design_ref="DESIGN.md §4 C06"),
+    "C07": dict(
+        text="Theorems maxiter_only_in_guard / callback_state_eq_run_k (the k-th callback state equals the result of the same run with maxiter = k, "
+             "field by field except message/status/success — by a simulation between the two runs of the model), snapshot_is_value (states are values, "
+             "not aliases); tied by bit-exact replay; on real runs every callback state is compared with the run re-executed with maxiter = state.nit "
+             "and frozen copies are compared after the run.",
+        note=SHELL_NOTE, technique="Lean 4 proof (simulation between runs with different budgets, induction on fuel) + bit-exact replay + re-run differential",
+        design_ref="DESIGN.md §4 C07"),
+    "C08": dict(
+        text="PARTIAL by proof, completed by correspondence. Theorems over Model/Cauchy.lean: order_sorted / order_positive / order_nodup (breakpoints "
+             "examined in non-decreasing order, only positive ones, each once — for any arithmetic), gcp_in_box (the returned point is in the box, any "
+             "arithmetic). That the point is the FIRST local minimiser of the piecewise quadratic along the projected path is not a theorem: the Float "
+             "model is compared with cauchy.py on a structural enumeration of activity patterns (n <= 4: 36 per-coordinate combos) and random inputs, "
+             "and both with a brute-force oracle (dense model, segment by segment, decision margin).",
+        note=KERNEL_NOTE, technique="Lean 4 proof (merge-sort order, box invariants) + model/implementation differential on enumerated activity patterns + brute-force first-local-minimiser oracle",
+        design_ref="DESIGN.md §4 C08"),
+    "C09": dict(
+        text="Theorems over Model/Subspace.lean: none_free, xbar_in_box and active_fixed (any arithmetic), alpha_star_feasible (ordered field: every step "
+             "in [0, alpha*] keeps the point in the box, alpha* <= 1), smw_direction (Mathlib matrices, any field: the direction computed through the small "
+             "2m x 2m system solves the reduced Newton system (theta I - W M W^T) d = -r, under M M^-1 = 1). Numerical equality with the dense Newton solve, "
+             "model decrease and descent are decided by the differential (Lean Float model vs subspacemin.py vs dense solve) over every free/active partition "
+             "for n <= 4 and random inputs.",
+        note=KERNEL_NOTE, technique="Lean 4 proof (Sherman-Morrison-Woodbury identity, box invariants) + model/implementation/dense-oracle differential over enumerated partitions",
+        design_ref="DESIGN.md §4 C09"),
+    "C10": dict(
+        text="Theorems: bookkeeping for arbitrary candidate sequences, any arithmetic (reject_is_noop, accept_appends_and_drops_oldest, mem_le_maxcor(_seq), "
+             "newest_pair_curv); algebra over any ordered field (bfgs_symm, bfgs_secant, bfgs_posdef, bfgs_chain_posdef, scaled_identity_spd). That the compact "
+             "representation (theta I - W M W^T through the triangular factors) equals the dense BFGS recursion is decided by correspondence: bfgsmats.py vs the "
+             "Lean Float compact model vs an independent dense recursion on random histories with rejected pairs, full memory, maxcor 1..12.",
+        note=KERNEL_NOTE, technique="Lean 4 proof (list bookkeeping; BFGS update SPD/secant by Mathlib matrix algebra) + history differential (implementation vs compact model vs dense recursion)",
+        design_ref="DESIGN.md §4 C10"),
+    "C11": dict(
+        text="Theorems over the line-search model with DCSRCH an arbitrary oracle and any arithmetic: ls_points_in_box, ls_evals_le_cap, ls_result_downhill; "
+             "ordered field: maxStep_feasible. Tied by replaying stand-alone line searches of the real code (recorded DCSRCH answers) through the model bit "
+             "for bit; every real trial point, count and returned step monitored, incl. caps 1..3 and maxfun about to be exhausted.",
+        note=SHELL_NOTE + " That the step returned is one DCSRCH proposed within [0, stpmax] is SciPy's contract, monitored on every recorded call.",
+        technique="Lean 4 proof (loop invariant over an oracle-driven stepper) + bit-exact replay of recorded line searches", design_ref="DESIGN.md §4 C11"),
+    "C12": dict(
+        text="PARTIAL by proof, completed by differential. Theorems: the default constants and the theta / first-step formulas are the reference ones (tables "
+             "regenerated from main.py, linesearch.py, bfgsmats.py on every run by translate/defaults2lean.py and checked by kernel evaluation), theta_model, "
+             "iter0_step_cap; the deviations are theorems elsewhere (C03/C11). That the evaluation-point sequence coincides with SciPy's L-BFGS-B is decided "
+             "on real runs: first 12 iterations, maxcor 1..8, compared point by point up to the first line search that triggers a documented deviation "
+             "(detected from the port's own trace) or the round-off regime; optimal values on the convex box problems of C01.",
+        note=SHELL_NOTE + " SciPy's L-BFGS-B is taken as the reference Algorithm 778.",
+        technique="Lean 4 kernel-evaluated tables regenerated from the source (translator) + bit-exact replay + differential against SciPy's L-BFGS-B evaluation points",
+        design_ref="DESIGN.md §4 C12"),
+    "C13": dict(
+        text="Theorems over the filter model (Memory.lean filterWolfe, any arithmetic): filter_keeps_newest, filter_subsequence, filter_curvature (every retained "
+             "consecutive pair passes the test on the rewritten gradients), identity_filter_noop; the driver model applies the filter before the stop tests and "
+             "rebuilds the matrices (memStep). Tied by bit-exact replay of runs with update functions (identity, consistent rescale/reweight/indefinite switches, "
+             "arbitrary rewrites); identity runs compared bit for bit with runs without the hook; next iterate compared with a restart on the new objective.",
+        note=SHELL_NOTE, technique="Lean 4 proof (structural induction on the filter) + bit-exact replay + switch/restart differential", design_ref="DESIGN.md §4 C13"),
+    "C14": dict(
+        text="Theorems: interleaving_independent / schedule_irrelevant / nested_independent (for machines over disjoint states every schedule of any length ends "
+             "where the solo runs end); that the package's runs are such machines is read off the source on every run by translate/state2lean.py and checked "
+             "by kernel evaluation: no_shared_mutable_state, no_mutable_default_written, display_is_read_only; run_is_a_function. What static tables cannot "
+             "exclude (writes through aliases of the caller's arrays, state in C) is decided by search: frozen read-only inputs and checkpoints with snapshots, "
+             "A-B-A repeats with random iprint/logger, two restarts from one checkpoint, two threads interleaved at every user call by explicit schedules, nesting.",
+        note=SHELL_NOTE + " SciPy >= 1.12 asserted at run time (the legacy Fortran line search would receive shared default work arrays).",
+        technique="Lean 4 proof (schedule independence by induction on the schedule) + source-to-Lean translator with kernel-evaluated hazard tables + interleaving/nesting/frozen-input search",
+        design_ref="DESIGN.md §4 C14"),
+    "C16": dict(
+        text="Theorems over Model/FD.lean (SciPy's step selection, _adjust_scheme_to_bounds, stencils, combination, the package's projection and zeroing): "
+             "fd_points_in_box for ANY arithmetic (every stencil point is a clip: discharges the hypothesis Ctx2.stencil of C02), stencil_in_box_1sided/2sided "
+             "and clip_is_identity_exact (ordered field: the routine's own stencil is inside the box, whatever the step), fd_counts, fixed_component_zero. The "
+             "Float model is compared bit for bit with every stencil and gradient recorded in real runs (2-point/3-point/None; cs monitored only). Runs in all "
+             "four modes with active bounds, narrow and tiny-scale boxes: no exception, points in box, nfev/njev, value against the exact-gradient run.",
+        note=SHELL_NOTE + " Complex-step mode is not modelled (its real parts are the base point).",
+        technique="Lean 4 proof (case analysis of the step adjustment over an ordered field; clip invariant for any arithmetic) + bit-exact model/implementation differential of stencils and gradients + run search",
+        design_ref="DESIGN.md §4 C16"),
+    "C17": dict(
+        text="Theorems: scaler_called_once, scaler_sees_unscaled, scaled_values, target_on_unscaled over the driver model; the equivalence with the explicitly "
+             "scaled objective is decided by pairs of real runs (f with scaler s vs s*f without) compared bit for bit on results and evaluation points, the "
+             "scaler run replayed through the model.",
+        note=SHELL_NOTE + " Callable gradient in the pair comparison.", technique="Lean 4 proof (driver invariants) + bit-exact replay + paired-run differential",
+        design_ref="DESIGN.md §4 C17"),
+    "C18": dict(
+        text="Theorems: pairs_are_diffs, pairs_le_maxcor, pairs_curvature (fresh runs without redefinition: result and every callback state carry consecutive "
+             "differences of a bounded history of coherent (point, user's gradient there x scale) values whose consecutive members passed the curvature test — "
+             "a memory invariant proved through the whole driver by induction), curv_pos, inv_bfgs_posdef / inv_bfgs_chain_posdef (the inverse-BFGS operator of "
+             "any positive-curvature pair list is SPD), diag_by_unit_vectors. sk/yk of every state are part of the bit-exact replay; on real runs they are "
+             "searched for as exact differences of a chronological chain in the harness's visit log (restart chains, redefinitions, FD modes); the diagonal "
+             "utility against todense() and an exact rational recursion. Known findings K2, K4, K1 reported as KNOWN-FINDING.",
+        note=SHELL_NOTE, technique="Lean 4 proof (memory invariant by induction on fuel; matrix algebra) + bit-exact replay + visit-log chain search + exact-rational oracle for the diagonal utility",
+        design_ref="DESIGN.md §4 C18"),
+    "C19": dict(
+        text="For each of the eight benchmark functions a theorem <name>_deriv: HasDerivAt of the real-valued transcription of the source formula along every "
+             "coordinate equals the transcription of the source gradient (Mathlib analysis); the transcriptions are regenerated from benchmarks.py on every run "
+             "(translate/bench2lean.py) and their Float twins are compared with the Python functions on random points.",
+        note="Trusted: Lean kernel + Mathlib analysis; the translator bench2lean.py (AST of benchmarks.py to Lean terms); Float twin comparison with a tolerance (libm).",
+        technique="source-to-Lean translator + Lean 4 proof (HasDerivAt in Mathlib) + Float-twin differential", design_ref="DESIGN.md §4 C19"),
+    "C20": dict(
+        text="Theorems: error_is_users (any error of the driver model is one a user callable returned), no_handler_reaches_user (table of every try/except of "
+             "the package regenerated by translate/handlers2lean.py: no handler that can reach a user callable swallows), no_residue; one fault per (callable "
+             "kind, call index) injected in real runs: the very exception object must reach the caller, the faulted run is replayed through the model, and an "
+             "identical fault-free call afterwards equals the baseline.",
+        note=SHELL_NOTE, technique="Lean 4 proof (Except-monad frame reasoning) + source-to-Lean translator of exception handlers + fault-injection differential",
+        design_ref="DESIGN.md §4 C20"),
+})
+
 
 def main():
     checks = []
@@ -95,7 +218,7 @@ def main():
           for pid in sorted(TITLES) if pid not in CHECKS]
     m = {
         "version": 1,
-        "setup_cmd": "cd /verif/lean && lake build LbfgsbVerif drv",
+        "setup_cmd": "cd /verif && for t in handlers2lean bench2lean state2lean defaults2lean; do /venv/bin/python translate/$t.py; done && cd lean && lake build LbfgsbVerif drv",
         "hooks": {
             "guard": "LBFGSB_VERIF",
             "enable": "no source hooks: the harness instruments the package from outside (wrapped user callables, monkey-patched module attributes) while importing /repo's working tree via PYTHONPATH",
